@@ -137,21 +137,119 @@ NOEXEC_FORMS = ["...", "pass", "'text %d'", "_n: int", "%d", "NS", "(NS)", "NS.x
                 "yield_ = None", "lambda: %d", "NS.x: int = %d", "del NS.x", "global _g%d", "import os.path", "await_ = 0", "f'{NS}'"]
 
 
-def layout(module, plain=False, deco_rng=None, ret_comps=False):
+class Trivia:
+    """Opt-in trivia (comments, blank lines, line continuations) at the clause positions of compound statements.  Off by default:
+    layout() without a Trivia prints exactly what it always printed.  Files with trivia are analysed, never executed.
+
+    Slots (clause = if elif else for while for_else while_else try except try_else finally with match case def class):
+      hdr:<clause>   on the header line(s): after the colon, or a backslash continuation before the colon
+      pre:<clause>   own lines between the header and the first statement of its block
+      post:<clause>  own lines after the last statement of the block (= before the next elif/else/except/finally/case clause,
+                     or before whatever follows the statement)
+      deco           between the decorator lines and the def/class header
+    A choice is made per (statement, slot, arm index) either at random (rng, p) or from `forced`:
+    {(id(statement tuple given to layout), slot, arm or None): kind}; key (None, slot, None) forces the kind at every such slot."""
+    HDR = ('comment', 'comment_tight', 'spaces', 'cont', 'cont_comment')
+    PRE = ('c_block', 'c_col0', 'c_header', 'c_deeper', 'blank', 'blank_c_blank', 'c_c', 'c_code')
+    POST = ('c_block', 'c_outer', 'c_col0', 'c_deeper', 'blank', 'blank_c')
+    DECO = ('c_same', 'blank', 'c_col0', 'c_deeper')
+    CLAUSES = ('if', 'elif', 'else', 'for', 'while', 'for_else', 'while_else', 'try', 'except', 'try_else', 'finally', 'with',
+               'match', 'case', 'def', 'class')
+
+    def __init__(self, rng=None, p=0.0, forced=None, star=(), exclude=(), few_deco=False):
+        self.rng, self.p, self.forced = rng, p, dict(forced or {})
+        self.exclude = set(exclude)    # (slot, kind) pairs never picked at random
+        self.few_deco = few_deco       # decorators only where the deco slot asks for one (keeps the systematic cases short)
+        self.star = set(star)          # id() of try statements whose handlers are spelled `except*`
+        self.used = {}                 # (slot, kind) -> count, for the coverage statistics
+
+    @classmethod
+    def kinds(cls, slot):
+        return cls.DECO if slot == 'deco' else {'hdr': cls.HDR, 'pre': cls.PRE, 'post': cls.POST}[slot.split(':')[0]]
+
+    def pick(self, slot, s, arm=None):
+        kind = None
+        for key in ((id(s), slot, arm), (id(s), slot, None), (None, slot, None)):
+            if key in self.forced:
+                kind = self.forced[key]
+                break
+        else:
+            if self.rng is not None and self.p > 0 and self.rng.random() < self.p:
+                kind = self.rng.choice([k for k in self.kinds(slot) if (slot, k) not in self.exclude])
+        if kind is not None:
+            self.used[(slot, kind)] = self.used.get((slot, kind), 0) + 1
+        return kind
+
+
+# comment texts: plain, code-like (a comment that spells a clause header or a def must stay a comment), unicode, empty
+COMMENTS = ["# note", "# else:", "#", "# def g(): pass", "#: finally:", "# \u00e9 class K: ...", "#!", "# except E: \\"]
+
+
+def layout(module, plain=False, deco_rng=None, ret_comps=False, trivia=None):
     """deco_rng: when given (C04 only; such files are not executed by CPython), defs and classes randomly get decorator
-    lines above their header and defs are randomly async; the statement id stays the header line."""
+    lines above their header and defs are randomly async; the statement id stays the header line.
+    trivia: a Trivia (opt-in, default none): comments / blank lines / continuations around every clause header and block; the
+    statement id stays the FIRST line of the header, the end line stays the last statement's line (what python3 ast reports)."""
     lines = list(HEADER)
     IND = "    "
 
-    def decorate(ind, is_def):
-        if deco_rng is None:
+    def cmt():
+        return COMMENTS[((len(lines) + 1) * 2654435761 >> 4) % len(COMMENTS)]
+
+    def head(text, ind, clause, s, arm=None):
+        """Print a clause header ending in ':' with the hdr trivia of its slot; returns the first line of the header."""
+        kind = trivia.pick('hdr:' + clause, s, arm) if trivia is not None else None
+        if kind in ('cont', 'cont_comment'):
+            lines.append(IND * ind + text[:-1] + " \\")
+            k = len(lines)
+            lines.append(IND * ind + "  :" + ("  " + cmt() if kind == 'cont_comment' else ""))
+            return k
+        tail = {'comment': "  " + cmt(), 'comment_tight': cmt(), 'spaces': "   "}.get(kind, "")
+        lines.append(IND * ind + text + tail)
+        return len(lines)
+
+    def own_lines(kind, ind):
+        """Own-line trivia around a block printed at indentation `ind` (its header is at ind - 1)."""
+        if kind is None:
+            return
+        for part in {'c_block': ['b'], 'c_col0': ['0'], 'c_header': ['h'], 'c_outer': ['h'], 'c_deeper': ['d'], 'blank': [''],
+                     'blank_c_blank': ['', 'b', ''], 'blank_c': ['', 'b'], 'c_c': ['0', 'b'], 'c_code': ['k'],
+                     'c_same': ['b']}[kind]:
+            if part == '':
+                lines.append("")
+            elif part == 'k':
+                lines.append(IND * ind + "# def g%d(): pass" % (len(lines) + 1))
+            else:
+                lines.append({'b': IND * ind, '0': "", 'h': IND * max(ind - 1, 0), 'd': IND * ind + "      "}[part] + cmt())
+
+    def body(b, ind, clause, s, arm=None):
+        """Print a block with the pre/post trivia of its clause."""
+        if trivia is not None:
+            own_lines(trivia.pick('pre:' + clause, s, arm), ind)
+        out = blk(b, ind)
+        if trivia is not None:
+            own_lines(trivia.pick('post:' + clause, s, arm), ind)
+        return out
+
+    def decorate(ind, is_def, s=None):
+        tk = trivia.pick('deco', s) if trivia is not None else None
+        if deco_rng is None and tk is None:
             return ""
-        for _ in range(deco_rng.choice([0, 0, 1, 1, 2])):
-            d = deco_rng.choice(["@staticmethod" if ind else "@cache", "@wraps(len)", "@property" if ind else "@timed", "@dec(1,"])
+        n_deco = deco_rng.choice([0, 0, 1, 1, 2]) if deco_rng is not None else 0
+        if trivia is not None and trivia.few_deco:
+            n_deco = 0
+        if tk is not None:
+            n_deco = max(n_deco, 1)      # trivia between the decorators and the header needs a decorator
+        for i in range(n_deco):
+            d = (deco_rng or trivia.rng or random).choice(["@staticmethod" if ind else "@cache", "@wraps(len)", "@property" if ind else "@timed", "@dec(1,"])
             lines.append(IND * ind + d)
             if d.endswith(","):
                 lines.append(IND * ind + "     2)")
-        return "async " if (is_def and deco_rng.random() < 0.3) else ""
+            if tk is not None and i == 0 and n_deco > 1:
+                own_lines(tk, ind)       # between two decorators as well
+        if tk is not None:
+            own_lines(tk, ind)
+        return "async " if (is_def and deco_rng is not None and deco_rng.random() < 0.3) else ""
 
     def emit(text, ind):
         lines.append(IND * ind + text)
@@ -226,70 +324,77 @@ def layout(module, plain=False, deco_rng=None, ret_comps=False):
             k = emit(pre + " ".join(parts) + post, ind)
             return ('comp', k, list(s[2]))
         if c == 'if':
-            k = emit("if C(%d):" % (len(lines) + 1), ind)
-            body = blk(s[2], ind + 1)
+            k = head("if C(%d):" % (len(lines) + 1), ind, 'if', s)
+            body_ = body(s[2], ind + 1, 'if', s)
             elifs = []
-            for (_, eb) in s[3]:
-                ek = emit("elif C(%d):" % (len(lines) + 1), ind)
-                elifs.append((ek, blk(eb, ind + 1)))
+            for i, (_, eb) in enumerate(s[3]):
+                ek = head("elif C(%d):" % (len(lines) + 1), ind, 'elif', s, i)
+                elifs.append((ek, body(eb, ind + 1, 'elif', s, i)))
             els = None
             if s[4] is not None:
-                emit("else:", ind)
-                els = blk(s[4], ind + 1)
-            return ('if', k, body, elifs, els)
+                head("else:", ind, 'else', s)
+                els = body(s[4], ind + 1, 'else', s)
+            return ('if', k, body_, elifs, els)
         if c in ('while', 'for'):
             if c == 'while':
-                k = emit("while C(%d):" % (len(lines) + 1), ind)
+                k = head("while C(%d):" % (len(lines) + 1), ind, c, s)
             else:
-                k = emit(a_() + var("for _ in I(%d):", "for _ in I(%d):", "for _a, _b in I(%d):", "for _.x in I(%d):") .replace("%d", str(len(lines) + 1)), ind)
-            body = blk(s[2], ind + 1)
+                k = head(a_() + var("for _ in I(%d):", "for _ in I(%d):", "for _a, _b in I(%d):", "for _.x in I(%d):") .replace("%d", str(len(lines) + 1)), ind, c, s)
+            body_ = body(s[2], ind + 1, c, s)
             els = None
             if s[3] is not None:
-                emit("else:", ind)
-                els = blk(s[3], ind + 1)
-            return (c, k, body, els)
+                head("else:", ind, c + '_else', s)
+                els = body(s[3], ind + 1, c + '_else', s)
+            return (c, k, body_, els)
         if c == 'try':
-            k = emit("try:", ind)
-            body = blk(s[2], ind + 1)
+            k = head("try:", ind, 'try', s)
+            body_ = body(s[2], ind + 1, 'try', s)
             hs = []
-            for (_, hb) in s[3]:
-                hk = emit(var("except H(%d):", "except H(%d):", "except (H(%d), E) as _e:", "except H(%d) as _e:").replace("%d", str(len(lines) + 1)), ind)
-                hs.append((hk, blk(hb, ind + 1)))
+            star = trivia is not None and id(s) in trivia.star
+            for i, (_, hb) in enumerate(s[3]):
+                if star:
+                    ht = var("except* H(%d):", "except* H(%d):", "except* (H(%d), E) as _e:", "except* H(%d) as _e:")
+                else:
+                    ht = var("except H(%d):", "except H(%d):", "except (H(%d), E) as _e:", "except H(%d) as _e:")
+                hk = head(ht.replace("%d", str(len(lines) + 1)), ind, 'except', s, i)
+                hs.append((hk, body(hb, ind + 1, 'except', s, i)))
             els = None
             if s[4] is not None:
-                emit("else:", ind)
-                els = blk(s[4], ind + 1)
+                head("else:", ind, 'try_else', s)
+                els = body(s[4], ind + 1, 'try_else', s)
             fin = None
             if s[5] is not None:
-                emit("finally:", ind)
-                fin = blk(s[5], ind + 1)
-            return ('try', k, body, hs, els, fin)
+                head("finally:", ind, 'finally', s)
+                fin = body(s[5], ind + 1, 'finally', s)
+            return ('try', k, body_, hs, els, fin)
         if c == 'with':
-            k = emit(a_() + var("with W(%d):", "with W(%d):", "with W(%d) as _w:", "with W(%d) as _w, W(0):", "with (W(%d), W(0)):").replace("%d", str(len(lines) + 1)), ind)
-            return ('with', k, blk(s[2], ind + 1))
+            k = head(a_() + var("with W(%d):", "with W(%d):", "with W(%d) as _w:", "with W(%d) as _w, W(0):", "with (W(%d), W(0)):").replace("%d", str(len(lines) + 1)), ind, 'with', s)
+            return ('with', k, body(s[2], ind + 1, 'with', s))
         if c == 'match':
-            k = emit("match S(%d):" % (len(lines) + 1), ind)
+            k = head("match S(%d):" % (len(lines) + 1), ind, 'match', s)
             cases = []
-            for (_, cb) in s[2]:
-                ck = emit(var("case _ if G(%d):", "case _ if G(%d):", "case [1, *_r] if G(%d):", "case {'a': 1}:", "case 1 | 2:", "case E(args=_x) if G(%d):", "case str() as _s:")
-                          .replace("%d", str(len(lines) + 1)), ind + 1)
-                cases.append((ck, blk(cb, ind + 2)))
+            if trivia is not None:
+                own_lines(trivia.pick('pre:match', s), ind + 1)
+            for i, (_, cb) in enumerate(s[2]):
+                ck = head(var("case _ if G(%d):", "case _ if G(%d):", "case [1, *_r] if G(%d):", "case {'a': 1}:", "case 1 | 2:", "case E(args=_x) if G(%d):", "case str() as _s:")
+                          .replace("%d", str(len(lines) + 1)), ind + 1, 'case', s, i)
+                cases.append((ck, body(cb, ind + 2, 'case', s, i)))
             return ('match', k, cases)
         if c == 'def':
-            pre = decorate(ind, True)
+            pre = decorate(ind, True, s)
             if ind == 0:
-                k = emit(pre + "def f%d():" % s[2], ind)
+                k = head(pre + "def f%d():" % s[2], ind, 'def', s)
             else:
-                k = emit(pre + "def f%d(_=M(%d)):" % (s[2], len(lines) + 1), ind)
+                k = head(pre + "def f%d(_=M(%d)):" % (s[2], len(lines) + 1), ind, 'def', s)
             astack.append(pre.endswith("async "))
-            body_ = blk(s[3], ind + 1)
+            body_ = body(s[3], ind + 1, 'def', s)
             astack.pop()
             return ('def', k, s[2], body_)
         if c == 'class':
-            decorate(ind, False)
-            k = emit("class K%d(B(%d)):" % (s[2], len(lines) + 1), ind)
+            decorate(ind, False, s)
+            k = head("class K%d(B(%d)):" % (s[2], len(lines) + 1), ind, 'class', s)
             astack.append(False)
-            body_ = blk(s[3], ind + 1)
+            body_ = body(s[3], ind + 1, 'class', s)
             astack.pop()
             return ('class', k, s[2], body_)
         raise AssertionError(c)
@@ -300,6 +405,119 @@ def layout(module, plain=False, deco_rng=None, ret_comps=False):
         lines.append("")
         lines.append("")
     return out, lines
+
+
+# ---------------------------------------------------------------------------------------
+# systematic trivia cases: one compound statement, definitions in EVERY clause, trivia at exactly one slot
+# ---------------------------------------------------------------------------------------
+def trivia_templates(fresh, rot=0):
+    """{template name: (statement, [(clause, arm)])}: every clause block holds two of {def, class with a method, simple
+    statement}, rotated so that each of them is first / last in some block; a dropped clause loses definitions."""
+    cnt = [rot]
+
+    def B():
+        items = [('def', 0, fresh(), [('simple', 0)]),
+                 ('simple', 0),
+                 ('class', 0, fresh(), [('def', 0, fresh(), [('simple', 0)])])]
+        cnt[0] += 1
+        r = cnt[0] % 3
+        return (items[r:] + items[:r])[:2]
+
+    t = {}
+    t['if'] = (('if', 0, B(), [(0, B()), (0, B())], B()), [('if', None), ('elif', 0), ('elif', 1), ('else', None)])
+    t['for'] = (('for', 0, B(), B()), [('for', None), ('for_else', None)])
+    t['while'] = (('while', 0, B(), B()), [('while', None), ('while_else', None)])
+    t['try'] = (('try', 0, B(), [(0, B()), (0, B())], B(), B()),
+                [('try', None), ('except', 0), ('except', 1), ('try_else', None), ('finally', None)])
+    t['try_star'] = (('try', 0, B(), [(0, B()), (0, B())], B(), B()), [('except', 0), ('except', 1), ('finally', None)])
+    t['try_finally'] = (('try', 0, B(), [], None, B()), [('try', None), ('finally', None)])
+    t['try_except'] = (('try', 0, B(), [(0, B())], None, None), [('except', 0)])
+    t['with'] = (('with', 0, B()), [('with', None)])
+    t['match'] = (('match', 0, [(0, B()), (0, B())]), [('match', None), ('case', 0), ('case', 1)])
+    t['def'] = (('def', 0, fresh(), B()), [('def', None)])
+    t['class'] = (('class', 0, fresh(), B()), [('class', None)])
+    return t
+
+
+TRIVIA_TEMPLATES = ('if', 'for', 'while', 'try', 'try_star', 'try_finally', 'try_except', 'with', 'match', 'def', 'class')
+
+
+def trivia_cases(rng, per_module=18, sample=None):
+    """Every (template, clause, slot, kind) once - the trivia sits at exactly one position of one statement - and, per kind,
+    one module with that kind at EVERY slot of every template.  Returns module records {ast, lines, trivia_case: [...]}.
+    The statements of a module sit at module level, in a function and in a method of a class (a third each).
+    sample: fraction of the single-position cases kept (quick tier); the all-slots modules are always generated.  The decorator
+    cases whose comment is indented less than the decorator get a module of their own (tree-sitter does not parse such a file)."""
+    names = [5000]
+
+    def fresh():
+        names[0] += 1
+        return names[0]
+
+    cases = []          # (label, statement, forced map, star ids)
+    alone = []
+    rot = 0
+    for slotkind in ('hdr', 'pre', 'post'):
+        for kind in Trivia.kinds(slotkind + ':if'):
+            for tname in TRIVIA_TEMPLATES:
+                for ci in range(len(trivia_templates(lambda: 0)[tname][1])):
+                    if sample is not None and rng.random() >= sample:
+                        continue
+                    # a fresh statement per case: exactly one slot carries trivia
+                    stmt, clauses = trivia_templates(fresh, rot)[tname]
+                    rot += 1
+                    clause, arm = clauses[ci]
+                    if clause == 'match' and slotkind == 'post':
+                        continue
+                    slot = slotkind + ':' + clause
+                    cases.append(("%s/%s/%s/%s" % (tname, slot, arm, kind), stmt, {(id(stmt), slot, arm): kind},
+                                  [id(stmt)] if tname == 'try_star' else []))
+    for kind in Trivia.DECO:
+        for tname in ('def', 'class'):
+            stmt, _ = trivia_templates(fresh, rot)[tname]
+            rot += 1
+            forced = {(id(stmt), 'deco', None): kind}
+            for x in stmt[3]:
+                if x[0] in ('def', 'class'):
+                    forced[(id(x), 'deco', None)] = kind
+            case = ("%s/deco/%s" % (tname, kind), stmt, forced, [])
+            if kind == 'c_col0':
+                alone.append(case)
+            else:
+                cases.append(case)
+    rng.shuffle(cases)
+    mods = []
+
+    def mk(chunk, indented=False):
+        forced, star, groups = {}, [], ([], [], [])
+        for i, (label, stmt, f, st_) in enumerate(chunk):
+            forced.update(f)
+            star += st_
+            groups[1 if indented else i % 3].append(stmt)
+        module = list(groups[0])
+        if groups[1]:
+            module.append(('def', 0, fresh(), groups[1] + [('simple', 0)]))
+        if groups[2]:
+            module.append(('class', 0, fresh(), [('def', 0, fresh(), groups[2] + [('simple', 0)])]))
+        tv = Trivia(forced=forced, star=star, few_deco=True)
+        a, lines = layout(module, deco_rng=rng, trivia=tv)
+        mods.append({"ast": a, "lines": lines, "trivia_case": [c[0] for c in chunk], "trivia_used": tv.used})
+
+    for off in range(0, len(cases), per_module):
+        mk(cases[off:off + per_module])
+    for case in alone:
+        mk([case], indented=True)
+    # the same kind at every slot at once (interactions between neighbouring trivia)
+    for slotkind in ('hdr', 'pre', 'post'):
+        for kind in Trivia.kinds(slotkind + ':if'):
+            tpl = trivia_templates(fresh, rot)
+            rot += 1
+            forced = {(None, slotkind + ':' + cl, None): kind for cl in Trivia.CLAUSES}
+            module = [('def', 0, fresh(), [tpl[n][0] for n in TRIVIA_TEMPLATES] + [('simple', 0)])]
+            tv = Trivia(forced=forced, star=[id(tpl['try_star'][0])], few_deco=True)
+            a, lines = layout(module, deco_rng=rng, trivia=tv)
+            mods.append({"ast": a, "lines": lines, "trivia_case": ["all/%s/%s" % (slotkind, kind)], "trivia_used": tv.used})
+    return mods
 
 
 # ---------------------------------------------------------------------------------------
